@@ -51,6 +51,46 @@ impl<K: Eq, V> FxHashMap<K, V> {
     pub fn clear(&mut self) {
         self.entries.clear();
     }
+    pub fn remove<Q: ?Sized>(&mut self, k: &Q) -> Option<V>
+    where
+        K: Borrow<Q>,
+        Q: Eq,
+    {
+        let mut i = 0;
+        while i < self.entries.len() {
+            if self.entries[i].0.borrow() == k {
+                return Some(self.entries.remove(i).1);
+            }
+            i += 1;
+        }
+        None
+    }
+    pub fn capacity(&self) -> usize {
+        self.entries.capacity()
+    }
+    pub fn shrink_to(&mut self, min_capacity: usize) {
+        self.entries.shrink_to(min_capacity);
+    }
+    pub fn shrink_to_fit(&mut self) {
+        self.entries.shrink_to_fit();
+    }
+    pub fn values(&self) -> impl Iterator<Item = &V> {
+        self.entries.iter().map(|e| &e.1)
+    }
+    pub fn get_mut<Q: ?Sized>(&mut self, k: &Q) -> Option<&mut V>
+    where
+        K: Borrow<Q>,
+        Q: Eq,
+    {
+        let mut i = 0;
+        while i < self.entries.len() {
+            if self.entries[i].0.borrow() == k {
+                return Some(&mut self.entries[i].1);
+            }
+            i += 1;
+        }
+        None
+    }
     pub fn len(&self) -> usize {
         self.entries.len()
     }
